@@ -10,9 +10,11 @@ head=$(git -C /repo rev-parse --short HEAD)
 out="$here/seeded/REGRESSION.txt"
 tmpout=$(mktemp)
 echo "# seeded changes re-run against /repo $head with the checks as committed; format: name | check | reported classes or MISSED" > "$tmpout"
+# REGRESS_ONLY="name1 name2 ...": re-run only these and merge the lines into the existing REGRESSION.txt
 for d in "$here"/seeded/${1:-*}/; do
   name=$(basename "$d")
   [ -f "$d/patch.diff" ] || continue
+  if [ -n "${REGRESS_ONLY:-}" ]; then case " $REGRESS_ONLY " in *" $name "*) ;; *) continue;; esac; fi
   args=$(python3 -c "import json,sys; m=json.load(open('$d/meta.json')); print(' '.join(m['check_run'].split()[2:]))")
   git -C "$lane" reset -q --hard HEAD; git -C "$lane" clean -qfd src 2>/dev/null
   if ! git -C "$lane" apply "$d/patch.diff" 2>/dev/null; then
@@ -32,5 +34,23 @@ for d in "$here"/seeded/${1:-*}/; do
   tail -1 "$tmpout"
 done
 git -C /repo worktree remove --force "$lane" 2>/dev/null; rm -rf "$lane" "$cache"
-mv "$tmpout" "$out"
+if [ -n "${REGRESS_ONLY:-}" ] && [ -f "$out" ]; then
+  python3 - "$out" "$tmpout" <<'PY'
+import sys
+old, new = sys.argv[1], sys.argv[2]
+upd = {}
+for l in open(new):
+    if not l.startswith("#"):
+        upd[l.split(" | ")[0]] = l
+lines = []
+for l in open(old):
+    k = l.split(" | ")[0]
+    lines.append(upd.pop(k, l))
+lines.extend(upd.values())
+open(old, "w").writelines(lines)
+PY
+  rm -f "$tmpout"
+else
+  mv "$tmpout" "$out"
+fi
 echo REGRESSDONE
